@@ -465,7 +465,8 @@ namespace ss
         auto bad = [&](const std::string& cls, const std::string& facts)
         {
             res.violated = true;
-            res.v.prop   = "C14";
+            // (blocks of the temporary block source that are never given back are C05's business as well)
+            res.v.prop   = cls == "exit_leak" ? "C14,C05" : "C14";
             res.v.cls    = cls;
             res.v.facts  = facts;
         };
